@@ -23,6 +23,12 @@ def run(C, R):
         F = C.facts(cfg)
         E = C.engine(cfg)
         R.configs.append(cfg)
+        from rl import unknown_transitions as _unk
+        for _st in ['channel::state_broadcast::ChannelState']:
+            _u = _unk(C.facts(cfg), C.cg(cfg), _st, ('send', 'close', 'try_receive', 'receive_or_register', 'remove_waiter', 'receive', 'drop', 'poll', 'cancel'))
+            if _u:
+                raise CheckerError('cannot judge: %s act(s) as a transition of %s (mutates it directly / composes state '
+                                   'calls) and this property has no rule for an operation of that name' % (', '.join(_u), _st))
         from common import slot_discipline as _sd
         R.floor('C13.R6 slot-accesses[%s]' % cfg, _sd(R, C.engine(cfg), C.facts(cfg), C.cg(cfg), 'channel::state_broadcast::ChannelState', 'C13.R6', may_take=False), 1)
         from common import futures_start_initial as _fsi
